@@ -552,6 +552,11 @@ class AbsEval(ConstEval):
             if len(args) == 3:
                 return args[2]
             raise AbsRaise("AttributeError", args[1])
+        if name == "getattr" and len(args) >= 2 and isinstance(args[1], str) and isinstance(a0, (str, int, float, bytes, tuple, list, dict, type(None), bool)):
+            if not hasattr(a0, args[1]):
+                if len(args) == 3:
+                    return args[2]
+                raise AbsRaise("AttributeError", args[1])
         if name == "cast" and len(args) == 2:
             return args[1]
         if name == "type" and len(args) == 1:
